@@ -59,6 +59,14 @@ def check(ctx):
         if sig not in seen:
             seen[sig] = (p, parts)
     for sig, (p, parts) in seen.items():
+        # a piece of the record's text that is carried through a local (`outcome[0]` of a memo, a string built elsewhere):
+        # which fields it holds is not read off the template
+        for h_ in tmpl.holes(parts):
+            e_ = h_[1]
+            if isinstance(e_, (ast.Name, ast.Subscript)) and not norm(e_).startswith((f"{rec}.", f"{table.name}[")) and isinstance(getattr(e_, "value", e_), ast.Name) and getattr(e_, "value", e_).id not in (rec, table.name) and not (isinstance(e_, ast.Name) and e_.id in {norm(x_) for x_ in ast.walk(loop) if isinstance(x_, ast.Name)}):
+                local_txt = [st_ for st_ in walk_own(f.node) if isinstance(st_, ast.Assign) and len(st_.targets) == 1 and norm(st_.targets[0]) == getattr(e_, "value", e_).id]
+                if local_txt and any(isinstance(x_, (ast.Tuple, ast.BinOp, ast.JoinedStr)) or (isinstance(x_, ast.Call) and isinstance(x_.func, ast.Attribute) and x_.func.attr == "get") for st_ in local_txt for x_ in [st_.value]):
+                    raise AnalysisError("R20.1", f.where(st), f"part of the record's text is written from the local `{norm(e_)[:40]}` (text put together or remembered elsewhere): the fields it holds are not read off the template")
         check_template(ctx, f, rec, st, p, parts, schema, extras, key_colon, table)
     ctx.run(r20_4_guard, f, rec, st, out, table)
     ctx.run(r20_5, f, rec, st, region, out, handle, var_mode)
